@@ -4,15 +4,63 @@ from check import Prop
 class C29(Prop):
     pid = "C29"
     check_mod = "C29"
-    drivers = [dict(pkg="internal/playback", test="TestVerifC29", timeout=600)]
-    n_quick = 300
-    n_thorough = 20000
-    shard = 25
-    ready = False
-    manifest = dict(text="wip", note="wip", technique="wip")
-    rule = "wip"
-    trusted_base = ["Coq 8.16.1 kernel + VM (vm_compute for cases)"]
-    assumptions = []
+    drivers = [dict(pkg="internal/playback", test="TestVerifC29", timeout=900)]
+    n_quick = 180
+    n_thorough = 12000
+    shard = 18
+    ready = True
+    manifest = dict(
+        text="Coq theorems over a Gallina model of the playback endpoints: FindSegments' filtering, "
+             "segmentFMP4CanBeConcatenated, concatenateSegments and the clipping of onList for /list; seekAndMux, "
+             "segmentFMP4MuxParts and muxerFMP4 (writeSample, writeFinalDTS, innerFlush with its part flushing) for /get. "
+             "For all recordings satisfying the recorder invariant and all windows: the spans of /list are ordered, "
+             "disjoint and of non-negative length; their union equals the recorded media clipped to the window as sets of "
+             "instants (exactly when consecutive segments are contiguous, between the segment union and the run hulls when "
+             "NTP/DTS jitter leaves short intervals open); 404 only if nothing is recorded in the window; an end before the "
+             "start is rejected (fix ed2cfb0); merged entries are exactly the hulls of maximal runs of files that continue "
+             "each other (same stream id and consecutive numbers, or legacy: same tracks and <= 1 s apart). For /get: the "
+             "sample table of every track of the returned file (independent of how the muxer cuts parts - proved by a "
+             "refinement invariant over all call sequences) is the pre-roll since the last sync sample before the start "
+             "(at zero duration, dropped when the first sample of the window is a sync sample) followed by exactly the "
+             "samples of the parts read whose decode time relative to the requested start lies in [0, duration), in "
+             "recorded order, re-based; the played segments are the first FindSegments returns and files continuing it. "
+             "The full-strength window statement is refuted in the model and on the real endpoint (reading stops at the "
+             "first part in which ANY track reaches the end; KNOWN_FINDINGS get:*cut-short) and proved under the guard "
+             "no_cut. Tied to the code by running the real handlers on generated recordings and comparing, inside Coq, "
+             "the JSON list and every PartTrack (base time, sample durations, flags, PTS offsets, payload ids) of the "
+             "returned fMP4.",
+        note="Oracles shipped per case: segment start instants (Path.Decode, C26), duration and init of each segment "
+             "(segmentFMP4ReadHeader / segmentFMP4ReadDurationFromParts, C28), the duration parsed from the query "
+             "(parseDuration: float or Go syntax), the sample tables the driver wrote with mediacommon's marshaller and "
+             "read back from the answer with its parser. Not modelled: 64-bit overflow of time.Duration / time.Time "
+             "saturation, format=mp4 (muxerMP4), I/O and malformed files (C28), authentication, URL fields of /list, "
+             "equal segment start instants (sort.Slice is unstable), a track id missing from the first init. The muxer "
+             "proofs assume per-track decode times that never go back and advance by < 2^32 units (uint32 durations); "
+             "zero-length spans are allowed (a window starting exactly at a segment end yields {start, 0}).",
+        technique="Coq proof: structural induction over the segment list (runs/hulls), interval reasoning with lia; "
+                  "refinement between the concrete muxer state (tracks, buffered samples, flushed parts) and an abstract "
+                  "per-track table, preserved by every writeSample/writeFinalDTS/innerFlush (invariant by induction over "
+                  "the call sequence), reader = pure event list; correspondence via vm_compute")
+    rule = ("one recording per 6 cases: 1-3 publisher sessions (new stream id each; legacy recordings without mtxi for all "
+            "or for the first session) pushed through a transcription of the recorder's "
+            "fMP4 segmenter (one-sample look-ahead per track, segment start = oldest pending sample, segment duration 1-3 s, "
+            "part duration 0.3-1 s, per-track delivery lag 0-0.4 s, NTP drift +-3 ms, track layouts video+audio / video / "
+            "audio with time scales 90000 48000 44100 8000 1000, GOP 1-6, irregular frame durations, segment numbers near "
+            "2^64 or continuing the previous session's under a new stream id), header duration written (ms) or missing, gaps between sessions 0 / 1 us / 0.5 s / 1 s -+ 1 us / 2-20 s; "
+            "files written with mediacommon's fmp4 marshaller; /list and /get called through gin test contexts with start, "
+            "end and duration drawn from every segment start/end, part and sample instant +- {0, 1 ns, 37 ns, 999 ns, 1 us, "
+            "1 ms, 0.5 s}, far before/after, missing, reversed, zero and negative durations, float and Go duration syntax. "
+            "Non-trivial = status 200; distinct = distinct descriptions")
+    trusted_base = ["Coq 8.16.1 kernel + VM (vm_compute for cases)",
+                    "in-package Go driver zz_verif_c29_test.go (real files under VERIF_WORK, real handlers through gin test contexts)",
+                    "model Model/C29_Playback.v hand-written, tied by correspondence (0 mismatches required)",
+                    "oracle: recordstore.Path Encode/Decode for segment start instants (C26)",
+                    "oracle: parseSegment (segmentFMP4ReadHeader, segmentFMP4ReadDurationFromParts) for segment durations (C28)",
+                    "oracle: parseDuration for the duration parameter; mediacommon fmp4 Marshal/Unmarshal for sample tables",
+                    "list durations recovered from the JSON float by rounding to nanoseconds (exact below 2^53 ns)"]
+    assumptions = ["segment list ordered by start with distinct starts, durations >= 0 (rec_ok)",
+                   "per-track decode times non-decreasing with steps < 2^32 units (tracks_sorted)",
+                   "track ids of an init are distinct", "no int64 overflow of durations/instants", "no I/O errors, well-formed files"]
 
 
 PROP = C29()
